@@ -17,7 +17,7 @@ ST = ['\\begin{e}', '\\end{e}', '\\begin{f}', '\\end{f}', '\\begin', '\\end', '\
       '{', '}', '[', ']', '$', '$$', '\\(', '\\)', '\\[', '\\]', 'x', ' ', '\n', '\n\n', '%c\n', '%',
       '\\begin{verbatim}', '\\end{verbatim}', '\\begin{equation}', '\\end{equation}', '\\newcommand', '\\cup',
       '\\left(', '\\left', '\\big', '\\\\', '\\%', '\\$', '.', '*', ' {', ' [', '\\end {e}', '{e}', '\\begin{}',
-      '\\end{}', '\\begin{ e}', '\\end{e }', '\\begin{ }', '\\end{ }', '\\def', '\\textbf', '\\section', '\\label', '\\begin{itemize}',
+      '\\end{}', '\\begin{ e}', '\\end{e }', '\\begin{ }', '\\end{ }', '\\begin{[tex]}', '\\end{[tex]}', '\\def', '\\textbf', '\\section', '\\label', '\\begin{itemize}',
       '\\end{itemize}', '\\begin[', 'e', '\\right)', '\\left.', '|']
 SUB = {
     'env': ['\\begin{e}', '\\end{e}', '\\begin{f}', '\\end{f}', '\\begin', '\\end', '{e}', ' ', 'x', '{', '}', '\\end {e}', '\\a', '[',
